@@ -1,5 +1,127 @@
-import TakVerif.Spec.Tak
+import TakVerif.Proofs.Reach
+import TakVerif.Proofs.FromSquares
+import TakVerif.Proofs.Budget
+import TakVerif.Proofs.Examples
+
+/-! C01 — applying a move succeeds iff it is legal Tak and yields the exact successor.
+
+`Tak.Pos.apply` is the construct-for-construct model of `MovePreallocated` (tied to the Go code by the
+differential check), `Spec.step` the list-level rule book, `Spec.abs` the abstraction, `Spec.decode` the reading
+of a raw `Move` value.  `Tak.WF` is the well-formedness invariant (see `Proofs/WF.lean`), `Tak.StackLimit` the
+documented 64-piece representation limit, `Tak.AnalyzeTotal` the flood-fuel lemma proved by the roads package
+(`Roads.analyze_ne_none`, unconditional) and taken as a hypothesis here. -/
 namespace C01
-/-- placeholder until the real theorems land: decoding an invalid type code is `invalid` -/
-theorem step_invalid (s : Spec.State) : Spec.step s .invalid = none := rfl
+open Tak
+
+/-- **No move value makes `MovePreallocated` panic** — for EVERY position (well-formed or not), every raw move
+(any `x`, `y`, any type code, any 32-bit `Slides` word) and any basis table.  The model's only guarded panic
+site (`Top` of an empty origin) is unreachable because the mover's bit has just been tested. -/
+theorem move_never_panics (basis : Array W) (p : Pos) (m : Move) (site : String) :
+    p.apply basis m ≠ .error (.panic site) := fun h => apply_err h
+
+/-- … and none makes it hang, given that `analyze` has enough flood fuel (`AnalyzeTotal`). -/
+theorem move_never_hangs (hA : AnalyzeTotal) (basis : Array W) (p : Pos) (m : Move) (site : String) :
+    p.apply basis m ≠ .error (.hang site) := fun h => by
+  obtain ⟨p', hp'⟩ := apply_err h
+  exact hA p' hp'
+
+/-- hence every raw move is either applied or rejected with a returned error -/
+theorem move_total (hA : AnalyzeTotal) (basis : Array W) (p : Pos) (m : Move) :
+    (∃ q, p.apply basis m = .ok q) ∨ (∃ why, p.apply basis m = .error (.illegal why)) := by
+  cases h : p.apply basis m with
+  | ok q => exact .inl ⟨q, rfl⟩
+  | error e =>
+    cases e with
+    | illegal w => exact .inr ⟨w, rfl⟩
+    | panic s => exact absurd h (move_never_panics basis p m s)
+    | hang s => exact absurd h (move_never_hangs hA basis p m s)
+
+example : ∃ q, Ex.mid.apply Ex.basis ⟨1, 0, 7, 1⟩ = .ok q := Ex.mid_slide_ok
+/-- an off-board origin and a damaged slide word are rejected, not executed -/
+example : Ex.mid.apply Ex.basis ⟨-1, 5, 6, 0x00f00012#32⟩ = .error (.illegal "off board") := by rfl
+
+/-- the statement of `move_refines` -/
+def move_refines_statement : Prop :=
+  ∀ (basis : Array W) (p : Pos) (m : Move), AnalyzeTotal → WF basis p → m.type ≠ Facts.mtPass → StackLimit p m →
+    match p.apply basis m with
+    | .error _ => Spec.step (Spec.abs p) (Spec.decode m) = none
+    | .ok q => Spec.step (Spec.abs p) (Spec.decode m) = some (Spec.abs q) ∧ WF basis q
+
+/-- **The model refines the rule book, and well-formedness is preserved.**  For every well-formed position, every
+raw move value other than the internal pass (all type codes, all coordinates, all slide words): if the model
+rejects, the rule book rejects; if the model accepts with successor `q`, the rule book accepts with successor
+exactly `abs q` (every stack's contents and order, reserves, ply) and `q` is well-formed again (incl. its hash
+field).  Since both sides are functions, this is "succeeds iff legal".  `StackLimit` only constrains moves the
+rule book accepts (result stacks ≤ 64 pieces); rejections need no such assumption. -/
+theorem move_refines : move_refines_statement :=
+  fun _ _ m hA hwf hp hlim => move_refines_core hA hwf m hp hlim
+
+/-- "succeeds exactly when legal": under the hypotheses of `move_refines` the model accepts iff the rule book does -/
+theorem move_ok_iff (hA : AnalyzeTotal) (basis : Array W) (p : Pos) (m : Move) (hwf : WF basis p)
+    (hp : m.type ≠ Facts.mtPass) (hlim : StackLimit p m) :
+    (∃ q, p.apply basis m = .ok q) ↔ (Spec.step (Spec.abs p) (Spec.decode m)).isSome = true := by
+  have h := move_refines basis p m hA hwf hp hlim
+  cases ha : p.apply basis m with
+  | error e => rw [ha] at h; simp only at h; rw [h]; simp
+  | ok q => rw [ha] at h; simp only at h; rw [h.1]; simp
+
+/-- **the stack limit is automatic when the game has at most 64 pieces**: `budget s` = pieces on the board +
+pieces in reserve never increases under legal moves (`step_budget`), and no stack is higher than the number of
+pieces on the board. -/
+theorem stack_limit_of_budget (p : Pos) (m : Move) (hb : budget (Spec.abs p) ≤ 64) : StackLimit p m :=
+  stackLimit_of_budget m hb
+
+/-- **reachable positions of the default 3×3 … 6×6 games** (≤ 62 pieces): every sequence of non-pass move values from
+the start position keeps model and rule book in step and every position met is well-formed — no stack-limit
+hypothesis left. -/
+theorem reachable_default (hA : AnalyzeTotal) (basis : Array W) (size : Nat) (bwt : Bool) (p : Pos) (ms : List Move)
+    (hs : size ≤ 6) (h0 : Pos.new ⟨size, 0, 0, bwt⟩ = .ok p) (hnp : ∀ m ∈ ms, m.type ≠ Facts.mtPass) :
+    match p.applyAll basis ms with
+    | .error _ => stepAll (Spec.abs p) (ms.map Spec.decode) = none
+    | .ok q => stepAll (Spec.abs p) (ms.map Spec.decode) = some (Spec.abs q) ∧ WF basis q :=
+  have hwf := Tak.new_wf basis h0
+  applyAll_refines hA ms hwf
+    (movesOK_of_budget hA ms hwf (Nat.le_trans (new_budget_default size bwt p hs h0) (by decide)) hnp)
+
+example : Pos.new ⟨5, 0, 0, false⟩ = .ok Ex.start5 ∧ (∀ m ∈ Ex.moves, m.type ≠ Facts.mtPass) ∧
+    Ex.start5.applyAll Ex.basis Ex.moves = .ok Ex.after :=
+  ⟨rfl, by decide, Ex.after_ok⟩
+
+/-- `New` builds a well-formed position for every accepted configuration (sizes 3..8, default or custom counts) -/
+theorem new_wf (basis : Array W) (cfg : Cfg) (p : Pos) (h : Pos.new cfg = .ok p) : WF basis p :=
+  Tak.new_wf basis h
+
+/-- **`FromSquares` output is well-formed** ("every well-formed constructed board"): for every configuration `New`
+accepts, every ply counter ≥ 0 and every board whose squares hold at most 64 pieces each, whatever bytes it
+contains: if `FromSquares` returns a position at all (any byte that is not one of the six piece codes makes it return
+an error), that position satisfies `WF`.  (That its squares are the input squares is checked by correspondence
+only, op `rebuild`.) -/
+theorem fromSquares_wf (basis : Array W) (cfg : Cfg) (board : List (List Nat)) (move : Int) (q : Pos)
+    (hm : 0 ≤ move) (hlen : ∀ sq ∈ board, sq.length ≤ 64)
+    (h : Pos.fromSquares basis cfg board move = .ok q) : WF basis q :=
+  Tak.fromSquares_wf basis cfg board move q hm hlen h
+
+/-- instance: rebuilding the position after a1 e5 b1 b2 b1+ a1> (stacks of height 2 on b1 and b2) from its squares -/
+example : ∃ q, Pos.fromSquares Ex.basis Ex.after.cfg
+      ((Spec.abs Ex.after).squares.map (fun sq => sq.map Piece.code)) Ex.after.move = .ok q ∧ q.equal Ex.after = true :=
+  ⟨_, by rfl, by decide +kernel⟩
+
+/-- along any sequence of non-pass moves (with the 64-piece limit at each step) from a well-formed position,
+the model and the rule book stay in step and every position met is well-formed -/
+theorem reachable_wf (hA : AnalyzeTotal) (basis : Array W) (p : Pos) (ms : List Move) (hwf : WF basis p)
+    (hok : MovesOK basis p ms) :
+    match p.applyAll basis ms with
+    | .error _ => stepAll (Spec.abs p) (ms.map Spec.decode) = none
+    | .ok q => stepAll (Spec.abs p) (ms.map Spec.decode) = some (Spec.abs q) ∧ WF basis q :=
+  applyAll_refines hA ms hwf hok
+
+/-- instance of ALL hypotheses of `move_refines` (other than `AnalyzeTotal`): the 5×5 position after a1 e5 b1 b2 is
+well-formed, b1+ (type 7 = SlideUp, one piece, capturing b2) is not a pass, satisfies the stack limit, and is
+accepted; its successor differs from the position it came from -/
+example : WF Ex.basis Ex.mid ∧ (⟨1, 0, 7, 1⟩ : Move).type ≠ Facts.mtPass ∧ StackLimit Ex.mid ⟨1, 0, 7, 1⟩ ∧
+    (∃ q, Ex.mid.apply Ex.basis ⟨1, 0, 7, 1⟩ = .ok q) :=
+  ⟨Ex.mid_wf, by decide, Ex.mid_slide_limit, Ex.mid_slide_ok⟩
+
+example : WF Ex.basis Ex.start5 := Tak.new_wf Ex.basis Ex.start5_ok
+
 end C01
